@@ -100,6 +100,14 @@ class C10Machine(Machine):
         elif config.get("large"):
             cp = cp[:len(cp) - 260] + cp[len(cp) - 260::26]
             up = up[:len(up) - 260] + up[len(up) - 260::26]
+        # one name of each pool is WITHHELD from every baseline: records may use it, but no converter is asked
+        # about it except in _asked_elsewhere_first, where the derived converter is asked before its inputs
+        self.withheld_c = cp[0] if len(cp) >= 4 else None
+        self.withheld_u = up[0] if len(up) >= 4 else None
+        if self.withheld_c is not None:
+            cp = cp[1:]
+        if self.withheld_u is not None:
+            up = up[1:]
         self.strings, self.pairs = observe.probe_sets(cp, up, config["id_pool"], config["delimiters"], max_ids=2, compact=True)
         # the cells of the bulk observation: a spread of the probe strings (line breaks and NULs are left to C16)
         ok = [x for x in self.strings if x and not any(ch in x for ch in "\r\n\x00")]
@@ -460,48 +468,11 @@ class C10Machine(Machine):
         """The bulk functions as queries of a converter: one data-frame call and one file call over a
         column of probe cells (a converter's answers "to every query" include what pd_* / file_* make of a
         cell; state that only the bulk paths keep is invisible to the scalar methods)."""
-        import csv
-        import io
-        import os
-
-        import pandas as pd
-
-        cells = self.bulk_cells
-
-        def frame():
-            # (expansion: only cells that have the converter's delimiter - the others make pd_expand raise)
-            d = conv.delimiter
-            sub = [x for x in cells if d in x]
-            if not sub:
-                return ["no cell with the delimiter"]
-            df = pd.DataFrame({"c": sub})
-            try:
-                conv.pd_expand(df, "c", target_column="t")
-                return ["ok", [None if pd.isna(x) else x for x in df["t"]]]
-            except Exception as e:  # noqa: BLE001 - whatever the bulk function does is an observation
-                return ["exc", type(e).__name__]
-
-        def file():
-            path = os.path.join(self._bulk_dir(), "cells.tsv")
-            with open(path, "w", newline="", encoding="utf-8") as f:
-                csv.writer(f, delimiter="\t").writerows([[x] for x in cells])
-            try:
-                conv.file_compress(path, 0, header=False)
-                with open(path, newline="", encoding="utf-8") as f:
-                    return ["ok", [row[0] if row else "" for row in csv.reader(f, delimiter="\t")]]
-            except Exception as e:  # noqa: BLE001
-                return ["exc", type(e).__name__]
-
-        return {"pd_expand": frame(), "file_compress": file()}
+        return observe.bulk_answers(conv, self.bulk_cells, self._bulk_dir())
 
     def _bulk_dir(self):
         if getattr(self, "_bdir", None) is None:
-            import tempfile
-
-            import os
-
-            shm = "/dev/shm"
-            self._bdir = tempfile.mkdtemp(prefix="c10bulk_", dir=shm if os.path.isdir(shm) and os.access(shm, os.W_OK) else None)
+            self._bdir = observe.scratch_dir("c10bulk_")
         return self._bdir
 
     def close(self):
@@ -885,19 +856,30 @@ class C10Machine(Machine):
         k = self.steps
         cp, up = self.config["curie_pool"], self.config["uri_pool"]
         uris = [up[(k + j) % len(up)] + f"z{k}_{j}" for j in range(3)]
-        observe.answers(near, uris + [cp[(k + j) % len(cp)] + near.delimiter + f"z{k}_{j}" for j in range(2)], [], full=False)
+        names = [cp[(k + j) % len(cp)] for j in range(2)]
+        if self.withheld_u is not None:
+            uris.append(self.withheld_u + "1")
+        if self.withheld_c is not None:
+            names.append(self.withheld_c)
+        pairs = [(self.withheld_c, "1")] if self.withheld_c is not None else []
+        observe.answers(near, uris + [n + near.delimiter + f"z{k}_{j}" for j, n in enumerate(names)] + names[2:], pairs, full=False)
         for a in [x for x in far_ids if self.entries[x].conv is not None and self.entries[x].lite["answers"] is not None][:3]:
             ae = self.entries[a]
             base = ae.lite["structure"]
-            strings = uris + [cp[(k + j) % len(cp)] + base["delimiter"] + f"z{k}_{j}" for j in range(2)]
+            strings = uris + [n + base["delimiter"] + f"z{k}_{j}" for j, n in enumerate(names)] + names[2:]
             try:
-                ref = c.Converter([c.Record(**d) for d in copy.deepcopy(base["records"])], delimiter=base["delimiter"])
+                robjs = [c.Record(**d) for d in copy.deepcopy(base["records"])]
+                if [observe.record_dump(r) for r in robjs] != base["records"]:
+                    # the Record class does not reproduce the input's records from their data (it drops or
+                    # normalises something that only other routes can put there): no faithful reference
+                    raise ValueError("records do not round-trip")
+                ref = c.Converter(robjs, delimiter=base["delimiter"])
             except Exception:  # noqa: BLE001 - records the constructor / Record class no longer takes: no reference
                 self.event("no_reference_converter_for_input")
                 continue
-            observe.answers(near, strings, [], full=False)
-            got = observe.answers(ae.conv, strings, [], full=False)["strings"]
-            want = observe.answers(ref, strings, [], full=False)["strings"]
+            observe.answers(near, strings, pairs, full=False)
+            got = observe.answers(ae.conv, strings, pairs, full=False)
+            want = observe.answers(ref, strings, pairs, full=False)
             if got != want:
                 raise Violation(PROP, kind_of_violation, site,
                                 {"ancestor": a, "strings_first_asked_of_the_other_converter": True,
